@@ -100,7 +100,7 @@ func levelOf(p string) string {
 }
 
 func runWorker(prop, tier string, seed uint64, w, W int, outPrefix, knownPath string, scale int) (int, string) {
-	cmd := exec.Command("bash", "-c", "ulimit -v 25165824; exec "+simTest+" -test.run '^TestWorker$' -test.timeout 6h -test.count 1")
+	cmd := exec.Command("bash", "-c", "ulimit -v 5242880; exec "+simTest+" -test.run '^TestWorker$' -test.timeout 6h -test.count 1")
 	cmd.Env = append(goEnv(),
 		"VERIF_PROP="+prop, "VERIF_TIER="+tier, "VERIF_SEED="+strconv.FormatUint(seed, 10),
 		"VERIF_WORKER="+strconv.Itoa(w), "VERIF_WORKERS="+strconv.Itoa(W), "VERIF_OUT="+outPrefix,
@@ -125,7 +125,7 @@ type replayResult struct {
 }
 
 func runReplay(path, knownPath, isolate string, verbose bool) replayResult {
-	cmd := exec.Command("bash", "-c", "ulimit -v 25165824; exec "+simTest+" -test.run '^TestReplay$' -test.timeout 10m -test.count 1")
+	cmd := exec.Command("bash", "-c", "ulimit -v 5242880; exec "+simTest+" -test.run '^TestReplay$' -test.timeout 10m -test.count 1")
 	cmd.Env = append(goEnv(), "VERIF_REPLAY="+path, "VERIF_KNOWN="+knownPath, "GOMAXPROCS=1")
 	if isolate != "" {
 		cmd.Env = append(cmd.Env, "VERIF_ISOLATE="+isolate)
@@ -186,6 +186,10 @@ func main() {
 		var rf core.ReplayFile
 		b, _ := os.ReadFile(os.Args[2])
 		json.Unmarshal(b, &rf)
+		if strings.Contains(rf.Key, "|crash|") && res.exit != 0 && !strings.Contains(res.output, "HARNESS") {
+			fmt.Println("the process died again while replaying this run")
+			res.reproduced = true
+		}
 		if res.reproduced {
 			fmt.Printf("VIOLATION property=%s replay=%s\n", rf.Property, os.Args[2])
 			os.Exit(1)
@@ -294,7 +298,7 @@ func main() {
 					Detail: "library call " + h.Label + " made no progress for 20 s of real time (every legitimate call finishes in microseconds)"})
 			}
 		default:
-			// crash (fatal error, out of memory under the 24 GiB address-space limit, killed)
+			// crash (fatal error, out of memory under the 5 GiB address-space limit, killed)
 			cur, _ := os.ReadFile(prefix + ".cur")
 			f := strings.Fields(string(cur))
 			if len(f) >= 4 {
@@ -320,7 +324,7 @@ func main() {
 					if !seenKey[key] {
 						seenKey[key] = true
 						rf.Key = key
-						rf.Detail = "the process died inside library call " + label + " (fatal error / out of memory under a 24 GiB address-space limit); tail of output: " + tail(rr.output, 400)
+						rf.Detail = "the process died inside library call " + label + " (fatal error / out of memory under a 5 GiB address-space limit); tail of output: " + tail(rr.output, 400)
 						violations = append(violations, rf)
 					}
 					continue
@@ -360,6 +364,9 @@ func main() {
 	}
 	wall := time.Since(start).Seconds()
 	writeEvidence(prop, tier, seed, stats, len(sigs), len(violations), wall, W)
+	if stats.Runs == 0 {
+		stats.Runs = 1 // every worker died before reporting; the violation above stands, the evidence stays schema-valid
+	}
 	fmt.Printf("%s %s: %d simulated runs (%d non-trivial, %d distinct), %d events, faults fired %v, %.1fs\n", prop, tier, stats.Runs, stats.Nontrivial, len(sigs), stats.Events, compact(stats.Faults), wall)
 	for _, l := range lines {
 		fmt.Println(l)
